@@ -433,3 +433,74 @@ func zzC17Kinds() {
 	}
 	vReach("end")
 }
+
+// H6: any short history of registrations, removals and listings (in any order, on a set that may be drained and
+// refilled), then a fresh traversal from the first page: it returns exactly the items registered at that moment,
+// each once, ascending. (H1–H3 start from sets built by registrations alone; states such as "listed, then emptied,
+// then refilled" are only reached through histories.)
+func zzC17History() {
+	s := NewServer(&Implementation{Name: "s", Version: "v"}, nil)
+	s.opts.PageSize = vIntRange("pageSize", 1, vParam("maxPage"))
+	var reg []string // ghost: ids registered now
+	steps := vParam("steps")
+	for i := 0; i < steps; i++ {
+		switch vChoice("op", 4) {
+		case 0: // register (new id or replacing)
+			k := zzKey("addkey")
+			s.prompts.add(&serverPrompt{prompt: &Prompt{Name: k}})
+			present := false
+			for _, o := range reg {
+				if o == k {
+					present = true
+				}
+			}
+			if !present {
+				reg = append(reg, k)
+			}
+		case 1: // remove (present or not)
+			k := zzKey("rmkey")
+			s.prompts.remove(k)
+			var rest []string
+			for _, o := range reg {
+				if o != k {
+					rest = append(rest, o)
+				}
+			}
+			reg = rest
+		case 2: // somebody lists a page
+			zzListPage(s, "")
+		case 3: // nothing
+		}
+	}
+	var got []string
+	cursor := ""
+	for i := 0; i <= steps; i++ {
+		res, err := zzListPage(s, cursor)
+		vAssert(err == nil, "C17.hist.list-ok")
+		for _, p := range res.Prompts {
+			got = append(got, p.Name)
+		}
+		cursor = res.NextCursor
+		if cursor == "" {
+			break
+		}
+	}
+	vAssert(cursor == "", "C17.hist.traversal-ends")
+	vAssert(len(got) == len(reg), "C17.hist.every-registered-item-exactly-once")
+	for i, g := range got {
+		if i > 0 {
+			vAssert(got[i-1] < g, "C17.hist.ascending")
+		}
+		found := false
+		for _, k := range reg {
+			if k == g {
+				found = true
+			}
+		}
+		vAssert(found, "C17.hist.only-registered-items")
+	}
+	if len(reg) > 0 {
+		vReach("nonempty")
+	}
+	vReach("end")
+}
